@@ -242,15 +242,14 @@ class ProbabilisticNode(Node):
             Removes the next states that have
             zero probability of reaching the final states.
         """
-        dead = [_next_state for _next_state in self.next_states
-                if state_list[_next_state[NEXT_STATE_IDX]].reach_probability == 0]
-        if not dead:
+        alive = [_next_state for _next_state in self.next_states
+                 if state_list[_next_state[NEXT_STATE_IDX]].reach_probability != 0]
+        if len(alive) == len(self.next_states):
             return
-        removed_probability = sum(_next_state[PROBABILITY] for _next_state in dead)
+        surviving_probability = sum(_next_state[PROBABILITY] for _next_state in alive)
         self.next_states = [
-            (_next_state[PROBABILITY] / (1 - removed_probability), _next_state[NEXT_STATE_IDX])
-            for _next_state in self.next_states
-            if state_list[_next_state[NEXT_STATE_IDX]].reach_probability != 0]
+            (_next_state[PROBABILITY] / surviving_probability, _next_state[NEXT_STATE_IDX])
+            for _next_state in alive]
 
     def remove_path(self, state_to_remove):
         """
